@@ -27,11 +27,34 @@ def S.prof (s : S) (k : Nat) : PCfg := ((s.profs.find? (fun e => e.1 == k)).map 
 def S.setProf (s : S) (k : Nat) (p : PCfg) : S :=
   { s with profs := (k, p) :: s.profs.filter (fun e => e.1 != k) }
 
-def parseRule (kind allow imp tsel t dom : String) : Rule :=
-  { kind := if kind == "h" then .host else if kind == "n" then .net else .any,
-    dom := if dom == "-" then "" else dom,
-    allow := bool! allow, important := bool! imp,
-    tsel := if tsel == "only" then .only (nat! t) else if tsel == "except" then .except (nat! t) else .all }
+def parseNats (s : String) : List Nat := if s == "-" then [] else (s.splitOn ",").map (fun x => nat! x)
+
+def parseToks (s : String) : List Tok :=
+  if s == "-" then [] else s.toList.map (fun c => if c == '*' then .star else if c == '^' then .sep else .lit c)
+
+/-- `kind allow important permitted restricted anchor end text`: for a hosts-style rule `text` is the
+comma-separated list of names, for a network rule the body of the pattern. -/
+def parseRule (kind allow imp perm restr anchor endA text : String) : Rule :=
+  if kind == "h" then { kind := .host, hosts := if text == "-" then [] else text.splitOn "," }
+  else
+    { kind := .net,
+      pat := { anchor := if anchor == "d" then .domain else if anchor == "s" then .start else .none,
+               toks := parseToks text, endAnch := bool! endA },
+      allow := bool! allow, important := bool! imp, permitted := parseNats perm, restricted := parseNats restr }
+
+def parseProto (s : String) : Proto :=
+  if s == "udp" then .udp else if s == "tcp" then .tcp else if s == "dot" then .dot
+  else if s == "doh" then .doh else if s == "doq" then .doq else .dnscrypt
+
+def showReply : Reply → String
+  | .srvFormerr => "FORMERR"
+  | .srvNotimp => "NOTIMP"
+  | .srvServfail => "SERVFAIL"
+  | .mwFormerr => "FORMERR"
+  | .fromNext => "NEXT"
+  | .http500 => "HTTP500"
+
+def showReplies (l : List Reply) : String := if l.isEmpty then "-" else ",".intercalate (l.map showReply)
 
 def parseASN (s : String) : Option Nat := if s == "-" then none else some (nat! s)
 
@@ -68,8 +91,8 @@ def step (s : S) : List String → S × String
   | ["reset"] => ({}, "ok")
   | ["gnet", is4, val, bits] =>
     ({ s with gnets := s.gnets ++ [{ is4 := bool! is4, val := nat! val, bits := nat! bits }] }, "ok")
-  | ["grule", kind, allow, imp, tsel, t, dom] =>
-    ({ s with grules := s.grules ++ [parseRule kind allow imp tsel t dom] }, "ok")
+  | ["grule", kind, allow, imp, perm, restr, anchor, endA, text] =>
+    ({ s with grules := s.grules ++ [parseRule kind allow imp perm restr anchor endA text] }, "ok")
   | ["pnew", k] => (s.setProf (nat! k) {}, "ok")
   | ["pan", k, is4, val, bits] =>
     let p := s.prof (nat! k)
@@ -83,14 +106,23 @@ def step (s : S) : List String → S × String
   | ["pba", k, asn] =>
     let p := s.prof (nat! k)
     (s.setProf (nat! k) { p with blockedASN := p.blockedASN ++ [nat! asn] }, "ok")
-  | ["prule", k, kind, allow, imp, tsel, t, dom] =>
+  | ["prule", k, kind, allow, imp, perm, restr, anchor, endA, text] =>
     let p := s.prof (nat! k)
-    (s.setProf (nat! k) { p with rules := p.rules ++ [parseRule kind allow imp tsel t dom] }, "ok")
+    (s.setProf (nat! k) { p with rules := p.rules ++ [parseRule kind allow imp perm restr anchor endA text] }, "ok")
   | ["req", is4, val, port, qname, qtype, qclass, asn, ecs, dev] =>
     let o := wrap s.global { addr := { is4 := bool! is4, val := nat! val }, port := nat! port, qname := qname,
                              qtype := nat! qtype, qclass := nat! qclass, asn := parseASN asn, ecsOk := ecs == "1",
                              ecsBad := ecs == "2", dev := parseDev s dev }
     (s, o.why ++ " " ++ showEff o.effects ++ " " ++ showB o.err ++ showInfo o.info)
+  | ["srv", proto, resp, opcode, nq, nans, nns, nw, is4, val, port, qname, qtype, qclass, asn, ecs, dev] =>
+    let r : Req := { addr := { is4 := bool! is4, val := nat! val }, port := nat! port, qname := qname,
+                     qtype := nat! qtype, qclass := nat! qclass, asn := parseASN asn, ecsOk := ecs == "1",
+                     ecsBad := ecs == "2", dev := parseDev s dev }
+    let m : MsgShape := { response := bool! resp, opcode := nat! opcode, nQ := nat! nq, nAns := nat! nans, nNs := nat! nns }
+    (s, showReplies (serverWire (parseProto proto) m s.global r (bool! nw)) ++ " " ++ showB (serverReachedNext m s.global r))
+  | ["pmatch", anchor, endA, text, host] =>
+    (s, showB (({ anchor := if anchor == "d" then .domain else if anchor == "s" then .start else .none,
+                  toks := parseToks text, endAnch := bool! endA } : Pat).matches (if host == "-" then [] else host.toList)))
   | ["gip", is4, val] => (s, showB (s.global.isBlockedIP { is4 := bool! is4, val := nat! val }))
   | ["ghost", host, qt] => (s, showB (s.global.isBlockedHost (if host == "-" then "" else host) (nat! qt)))
   | ["pblk", k, is4, val, asn, qname, qt] =>
